@@ -97,6 +97,25 @@ def gen_case(rng, n, tier, kind='model'):
         srcs.append({'island': isl, 'index': [float(i), float(j)], 'peak': peak,
                      'a': a, 'b': b, 'pa': float(rng.uniform(-89.9, 90)),
                      'errs': [float(x) for x in 10 ** rng.uniform(-6, -2, 7)]})
+    # sources whose cut-out overhangs an image edge or corner (centre 0.3-2 FWHM inside the image)
+    for e in range(int(rng.integers(0, 4)) if n >= 3 else 0):
+        apx = float(rng.uniform(3.5, 9.0))
+        a = max(apx * scale * 3600, bmaj * 3600)
+        b = max(a / float(rng.uniform(1.0, 2.0)), bmin * 3600)
+        reach = 2.6 * a / 3600 / scale
+        d1, d2 = float(rng.uniform(0.3, 2.0)) * apx, float(rng.uniform(0.3, 2.0)) * apx
+        side = int(rng.integers(0, 8))
+        i = [d1, rows - 1 - d1, float(rng.uniform(reach, rows - reach)), float(rng.uniform(reach, rows - reach)),
+             d1, d1, rows - 1 - d1, rows - 1 - d1][side]
+        j = [float(rng.uniform(reach, cols - reach)), float(rng.uniform(reach, cols - reach)), d2, cols - 1 - d2,
+             d2, cols - 1 - d2, d2, cols - 1 - d2][side]
+        if any(np.hypot(i - p[0], j - p[1]) < reach + p[2] for p in placed):
+            continue
+        placed.append((i, j, reach))
+        srcs.append({'island': max([q['island'] for q in srcs] + [-1]) + 1, 'index': [float(i), float(j)],
+                     'peak': float(rng.choice([-1, 1], p=[0.2, 0.8]) * 10 ** rng.uniform(-2, 2)), 'a': a, 'b': b,
+                     'pa': float(rng.uniform(-89.9, 90)), 'errs': [float(x) for x in 10 ** rng.uniform(-6, -2, 7)],
+                     'edge': side})
     case = {'kind': kind, 'proj': proj, 'crval': [ra0, dec0], 'crpix': list(crpix), 'scale': scale, 'shape': [rows, cols],
             'beam': [bmaj, bmin, bpa], 'sources': srcs, 'stage': int(rng.integers(1, 4)), 'regroup': bool(rng.random() < 0.5),
             'ratio': None if rng.random() < 0.7 else 1, 'docov': bool(rng.random() < 0.4),
@@ -125,9 +144,12 @@ def cases(seed, tier):
         c['bad'] = []
         rows, cols = c['shape']
         for _ in range(int(rng.integers(2, 7))):
-            what = str(rng.choice(['off_image', 'on_nan']))
+            what = str(rng.choice(['off_image', 'on_nan', 'far_off_image']))
             near = bool(rng.random() < 0.5)
             c['bad'].append({'what': what, 'near': near, 'seed': int(rng.integers(0, 2 ** 31))})
+        c['bad_first'] = bool(i % 2)            # the bad sources lead the catalogue (row order must not matter)
+        c['psf_unknown'] = bool((i // 2) % 2)   # catalogue without psf information (psf_* = NaN, as loaded from such a table)
+        c['ratio'] = None if c['psf_unknown'] else c['ratio']
         out.append(c)
     n_cli = 3 if tier == 'quick' else 30
     for i in range(n_cli):
@@ -165,6 +187,7 @@ def make_objects(case, z):
         o.flags = 0
         o.uuid = str(uuidlib.UUID(int=(k + 1) * 104729 + 17))
         o.ra_str, o.dec_str = 'x', 'x'
+        o._edge = s.get('edge')
         out.append(o)
     return out
 
@@ -172,7 +195,7 @@ def make_objects(case, z):
 def truth_of(objs):
     return {o.uuid: {'ra': float(o.ra), 'dec': float(o.dec), 'peak': float(o.peak_flux), 'a': float(o.a), 'b': float(o.b),
                      'pa': float(o.pa), 'err_ra': o.err_ra, 'err_dec': o.err_dec, 'err_a': o.err_a, 'err_b': o.err_b,
-                     'err_pa': o.err_pa, 'int': float(o.int_flux)} for o in objs}
+                     'err_pa': o.err_pa, 'int': float(o.int_flux), 'edge': getattr(o, '_edge', None)} for o in objs}
 
 
 def write_catalogue(objs, form, psf_columns, sc):
@@ -269,6 +292,8 @@ def judge_outputs(o, ctx, case, outs, truth, z, accepted_uuids, judge_values=Tru
             o.count('outputs_not_fit')
             continue
         o.count('outputs_judged')
+        if t.get('edge') is not None:
+            o.count('outputs_judged_with_cutout_over_an_edge')
         w = dict(ctx, uuid=u, truth=t, out={'ra': s.ra, 'dec': s.dec, 'peak': s.peak_flux, 'a': s.a, 'b': s.b, 'pa': s.pa,
                                             'flags': int(s.flags), 'err_ra': s.err_ra, 'err_a': s.err_a})
         sxp = t['a'] / 3600 / scale * FWHM2CC
@@ -461,9 +486,11 @@ def _interference(o, ctx, case, z, h, img, objs, truth, rms, sc, rng):
         r = np.random.default_rng(b['seed'])
         g = objs[int(r.integers(0, len(objs)))]
         gi, gj = [float(v) for v in z.sky2index(g.ra, g.dec)]
-        if b['what'] == 'off_image':
+        if b['what'] in ('off_image', 'far_off_image'):
             side = int(r.integers(0, 4))
             d = float(r.uniform(1.0, 40.0))
+            if b['what'] == 'far_off_image':
+                d = float(r.uniform(2.0, 10.0)) / case['scale']          # degrees away, in pixels
             i = -d if side == 0 else (rows - 1 + d if side == 1 else float(r.uniform(0, rows)))
             j = -d if side == 2 else (cols - 1 + d if side == 3 else float(r.uniform(0, cols)))
         else:
@@ -497,8 +524,16 @@ def _interference(o, ctx, case, z, h, img, objs, truth, rms, sc, rng):
     fn_img = os.path.join(sc, 'model_nan.fits')
     fits.PrimaryHDU(img, header=h).writeto(fn_img, overwrite=True)
     good = copy.deepcopy(objs)
-    mixed = copy.deepcopy(objs) + [copy.deepcopy(s) for s, _ in bad]
-    mixed = [mixed[i] for i in rng.permutation(len(mixed))]
+    good = [good[i] for i in rng.permutation(len(good))]
+    if case.get('bad_first'):
+        mixed = [copy.deepcopy(s) for s, _ in bad] + copy.deepcopy(good)
+    else:
+        mixed = copy.deepcopy(objs) + [copy.deepcopy(s) for s, _ in bad]
+        mixed = [mixed[i] for i in rng.permutation(len(mixed))]
+    if case.get('psf_unknown'):
+        for q in good + mixed:
+            q.psf_a = q.psf_b = q.psf_pa = float('nan')
+        o.count('interference_pairs_without_psf_information')
     outs_good = _guard(o, ctx, lambda: run_priorized(case, fn_img, good, rms, sc))
     outs_mixed = _guard(o, dict(ctx, with_bad_sources=[b for _, b in bad]), lambda: run_priorized(case, fn_img, mixed, rms, sc))
     if outs_good is None or outs_mixed is None:
